@@ -480,7 +480,9 @@ def run(ctx):
     ctx.cov["rule"] = ("seeded specs (kind hfo/user/cd/phase/kin × database × electrostatic option × pH 3–11 × I 1e-4…1 × 0–4 sorbing ions × "
                        "0–2 REACTION stages) rendered to PHREEQC input and run on the real library; every USER_PUNCH row of a run that ends "
                        "without ERROR and has a SURFACE in use is one block: the in-process dump is re-evaluated by pmodel surface "
-                       "(V = relation of the property at 1e-8 relative, T = number held by the code equals the model's recomputation). "
+                       "(V = relation of the property at 1e-8 relative, T = number held by the code equals the model's recomputation or the "
+                       "independent reading of the database/input text). Histories: 0–4 stages per case (reagent additions in 1–3 steps, "
+                       "temperature changes, redefinition of SURFACE 1, SAVE/USE chains, kinetic time steps). "
                        "distinct_nontrivial = blocks with a surface in use (distinct (case, calculation) pairs).")
     if tie_broken and not ctx.violations:
         i, tf = tie_broken[0]
@@ -546,23 +548,33 @@ def replay(ctx, data):
 
 
 MANIFEST = dict(
-    technique="Lean 4 theorems on an executable model of the surface rows of residuals/check_residuals/model, of "
-              "add_potential_factor/add_cd_music_factors, gammas(case 6)/molalities and the EDL read-outs; translator "
-              "(tools/gen_surfconst.py: constants and hard-coded factors of the source → Gen/SurfConst.lean, theorem "
-              "source_constants); correspondence: the model re-evaluates every relation on in-process dumps of real runs",
+    technique="Lean 4 theorems on an executable model of the surface code (rows of residuals/check_residuals/model, "
+              "add_potential_factor/add_cd_music_factors, gammas case 6/molalities, k_calc, calc_psi_avg/calc_all_donnan, "
+              "calc_all_g with g_function/midpnt/qromb_midpnt/polint, the EDL read-outs); translator tools/gen_surfconst.py "
+              "(constants and hard-coded factors of the source → Gen/SurfConst.lean, theorem source_constants); correspondence: "
+              "the model re-evaluates every relation on in-process dumps of real runs, with species data (reaction, log K, ΔH, "
+              "charge, -cd_music, site count), aqueous charges and the SURFACE block (area, mass, capacitances, sites) read "
+              "independently from the database / input TEXT (tools/dbparse.py + own readers) and tied to the engine's tables",
     text="Theorems (Properties/C20.lean, for all inputs/histories, over Rat with uninterpreted sqrt/sinh/exp/ln): gate_surface* "
          "(any solver step, any iteration count: model() completes without error ⇒ site balance within tol·sites, |GC(ψ)−σ|, "
-         "|C·ψ−σ|, CD-MUSIC rows within tol), potential_factor_mass_action and cd_music_factor_mass_action (rewritten equation "
-         "with psi tokens ⇔ electrostatic mass-action law at the reported ψ), gc_odd / gc_strict_mono / gc_injective, ccm_linear, "
-         "cdmusic_charge_sum / cdmusic_exact, dl_charge_neutral, with non-vacuity examples. Obligation over generated data: "
-         "pmodel surface (same definitions on Float) recomputes on each completed calculation of seeded runs: Σ species = defined "
-         "sites; log a = log K + Σν·log a_j + electrostatic term from the DATABASE reaction and the reported ψ (1e-8 relative); "
-         "σ(species) = Gouy–Chapman(ψ; mu, eps_r, T) / C·ψ / CD-MUSIC plane relations (1e-8 relative or the code's absolute gate); "
-         "diffuse-layer excess = −surface charge; the same on the public read-outs EDL/SURF/MOL/LA/MU/EPS_R/TK. Correspondence: "
-         "psi-token coefficients, lm from rxn_x, lg, f and residual of every surface row, sigma0/sigma1, read-out = internal value.",
-    note="Trusted: Lean kernel; harness/ph_surface.cpp (friend access, BASIC CALLBACK at punch time); tools/props/c20.py; libm. "
-         "log K(T) of a species is taken from the engine's own k_calc on the database reaction. Partial: the diffuse-layer "
-         "composition (calc_all_g / calc_all_donnan integration) is judged through charge neutrality only; with an explicit diffuse "
-         "layer the Gouy–Chapman relation is not demanded (the code balances σ against the integrated ion excess instead). "
-         "Runs that end with ERROR are counted, not judged.",
+         "|C·ψ−σ|, CD-MUSIC rows within tol), checkError_imp_fails, potential_factor_mass_action, cd_music_factor_mass_action, "
+         "gc_odd / gc_strict_mono / gc_injective, ccm_linear, cdmusic_charge_sum / cdmusic_exact, dl_charge_neutral, "
+         "donnan_charge_neutral(_exact) (root of calc_psi_avg's function ⇒ Donnan layer holds −A·f_sinh·sinh(Fψ/2RT)/F), "
+         "donnan_boltzmann(_mul) (layer/solution concentration ratio = exp(cd_m·z·p), multiplicative in z), donnanG_content_pos, "
+         "dl_species_charge, kCalc_vant_hoff, site_drift_bound (kinetic-related sites over n calculations), source_constants; "
+         "non-vacuity examples. Obligation over generated data: pmodel surface (same definitions on Float) recomputes on each "
+         "completed calculation: Σ species = defined sites (and = proportion × reactant for related surfaces, with the proved drift "
+         "bound); log a = log K(T) + Σν·log a_j + electrostatic term with reaction/log K/ΔH/charges/-cd_music taken from the "
+         "database and input TEXT and the reported ψ (1e-8 relative); σ(species) = Gouy–Chapman / C·ψ / CD-MUSIC plane relations with "
+         "area, mass, capacitances from the input TEXT; diffuse layer: g(z) of every charge number recomputed by the model of "
+         "calc_psi_avg+calc_all_donnan resp. of the Romberg integration of calc_all_g, moles of every species in the layer = "
+         "moles·erm·(g+ratio), Donnan layer total = −GC charge, ion excess = −surface charge; the same on the public read-outs "
+         "EDL/SURF/MOL/LA/MU/EPS_R/TK/EQUI/KIN. Correspondence (T): engine tables = text reading (db-rxn, db-lk, db-z, db-cd, "
+         "db-elt, db-aq-z, in-area/grams/cap0/cap1/sites), psi-token coefficients, lm from rxn_x, lg, f and residual of every "
+         "row, sigma0/sigma1, g_map (donnan-g, borkovec-g), read-out = internal value.",
+    note="Trusted: Lean kernel; harness/ph_surface.cpp (friend access, BASIC CALLBACK at punch time); tools/dbparse.py and the "
+         "small -cd_music / SURFACE-block readers in tools/props/c20.py; libm. Partial: Donnan with correct_D / Donnan_factors / "
+         "viscosity options is not generated; erm_ddl, the diffuse-layer water (initial_surface_water) and log gamma of aqueous "
+         "species are taken from the engine; pressure is 1 atm; near zero charge calc_psi_avg stops at |p| < G_TOL and the Donnan "
+         "total is then not judged (premise of donnan_charge_neutral). Runs that end with ERROR are counted, not judged.",
 )
